@@ -103,7 +103,7 @@ def sites(ctx, files):
                     for tgt, labs in si[1].items():
                         if "Err" in labs and not (set(labs) - {"Err"}):
                             cfg = cfg or ctx.cfg(f)
-                            if set(rets) & cfg.reach_from([tgt]):
+                            if set(rets) & cfg.reach_from([tgt]) and set(rets) & cfg.reach_from_sensitive([tgt]):
                                 out.append(("swallowed-error", "%s | %s" % (root, inner[1]), f.loc(f.blocks[bb]["t"].get("ln")), "an Err of %s can be followed by a non-error return" % inner[1].split("::", 1)[-1]))
     # one entry per key (multiplicity kept)
     return out
